@@ -19,9 +19,11 @@ def KidsOk (P : NodeId → Option Int → Option Int → Prop) (lo hi : Option I
   | c :: cs, i :: is =>
     (c = 0 ∨ P c lo (some i.key)) ∧ LeO lo i.key ∧ OLe i.key hi ∧ i.id ≠ 0 ∧ KidsOk P (some i.key) hi cs is
 
-/-- slot/children arrays have the configured length, `count` fits, everything past `count` is zeroed -/
+/-- slot/children arrays have the configured length, `count` fits, the memoised child index is `-1` or
+    an index into a children array, everything past `count` is zeroed -/
 def NodeShape (t : BTree) (nd : Node) : Prop :=
-  nd.slots.size = t.sl ∧ nd.count ≤ t.sl ∧ (∀ i ∈ nd.slots.toList.drop nd.count, i = ({} : Item)) ∧
+  nd.slots.size = t.sl ∧ nd.count ≤ t.sl ∧ (-1 ≤ nd.ion ∧ nd.ion ≤ (t.sl : Int)) ∧
+  (∀ i ∈ nd.slots.toList.drop nd.count, i = ({} : Item)) ∧
   (∀ cs, nd.children = some cs → cs.size = t.sl + 1 ∧ ∀ c ∈ cs.toList.drop (nd.count + 1), c = 0)
 
 /-- the subtree at `n`: parent link is `parent`, shape, per-node sortedness, all keys in `[lo, hi]`,
@@ -29,7 +31,7 @@ def NodeShape (t : BTree) (nd : Node) : Prop :=
 def WFNode (t : BTree) : Nat → NodeId → NodeId → Option Int → Option Int → Prop
   | 0, _, _, _, _ => False
   | fuel + 1, n, parent, lo, hi =>
-    n ≠ 0 ∧ ∃ nd, t.get? n = some nd ∧ nd.parent = parent ∧ NodeShape t nd ∧
+    n ≠ 0 ∧ ∃ nd, t.get? n = some nd ∧ nd.parent = parent ∧ NodeShape t nd ∧ (parent = 0 ∨ 1 ≤ nd.count) ∧
       match nd.children with
       | none => ItemsOk lo hi nd.items
       | some cs => KidsOk (fun c l h => WFNode t fuel c n l h) lo hi (cs.toList.take (nd.count + 1)) nd.items
@@ -37,6 +39,7 @@ def WFNode (t : BTree) : Nat → NodeId → NodeId → Option Int → Option Int
 /-- tree-shaped heap (every node reached exactly once from the root, nothing else in the repository),
     well-formed from the root with no outer bounds, and the store count equals the number of items -/
 def WF (t : BTree) : Prop :=
+  (2 ≤ t.sl ∧ t.sl % 2 = 0) ∧
   if t.root = 0 then t.nodes = [] ∧ t.count = 0
   else
     WFNode t (t.nodes.length + 1) t.root 0 none none ∧
@@ -72,7 +75,7 @@ theorem kidsOk_sound {chk : NodeId → Option Int → Option Int → Bool} {P : 
 
 theorem nodeShapeOk_sound {t : BTree} {nd : Node} (h : nodeShapeOk t nd = true) : NodeShape t nd := by
   simp only [nodeShapeOk, Bool.and_eq_true, beq_iff_eq, decide_eq_true_eq, List.all_eq_true] at h
-  refine ⟨h.1.1.1, h.1.1.2, fun i hi => by simpa using h.1.2 i hi, ?_⟩
+  refine ⟨h.1.1.1.1.1, h.1.1.1.1.2, ⟨h.1.1.1.2, h.1.1.2⟩, fun i hi => by simpa using h.1.2 i hi, ?_⟩
   intro cs hcs
   rw [hcs] at h
   simp only [Bool.and_eq_true, beq_iff_eq, List.all_eq_true] at h
@@ -88,8 +91,8 @@ theorem checkNode_sound (t : BTree) : ∀ (fuel : Nat) (n parent : NodeId) (lo h
     | none => simp [hg] at h
     | some nd =>
       rw [hg] at h
-      simp only [Bool.and_eq_true, beq_iff_eq] at h
-      refine ⟨hn, nd, hg, h.1.1, nodeShapeOk_sound h.1.2, ?_⟩
+      simp only [Bool.and_eq_true, beq_iff_eq, Bool.or_eq_true, decide_eq_true_eq] at h
+      refine ⟨hn, nd, hg, h.1.1.1, nodeShapeOk_sound h.1.1.2, h.1.2, ?_⟩
       cases hc : nd.children with
       | none =>
         have h2 := h.2; rw [hc] at h2
@@ -101,6 +104,9 @@ theorem checkNode_sound (t : BTree) : ∀ (fuel : Nat) (n parent : NodeId) (lo h
 theorem checkWF_sound (t : BTree) (h : checkWF t = true) : WF t := by
   unfold checkWF at h
   unfold WF
+  rw [Bool.and_eq_true, Bool.and_eq_true, decide_eq_true_eq, beq_iff_eq] at h
+  refine ⟨h.1, ?_⟩
+  replace h := h.2
   by_cases hr : t.root = 0
   · simp only [hr, beq_self_eq_true, if_true, Bool.and_eq_true, List.isEmpty_iff, beq_iff_eq] at h
     simp only [hr, if_true]
@@ -183,7 +189,7 @@ theorem wfNode_good (t : BTree) : ∀ (fuel : Nat) (n parent : NodeId) (lo hi : 
     WFNode t fuel n parent lo hi → Good lo hi (absNode t fuel n)
   | 0, _, _, _, _, h => absurd h (by simp [WFNode])
   | fuel + 1, n, parent, lo, hi, h => by
-    obtain ⟨hn, nd, hg, _, _, hbody⟩ := h
+    obtain ⟨hn, nd, hg, _, _, _, hbody⟩ := h
     simp only [absNode, hn, if_false, hg]
     cases hc : nd.children with
     | none =>
@@ -198,6 +204,7 @@ theorem wfNode_good (t : BTree) : ∀ (fuel : Nat) (n parent : NodeId) (lo hi : 
 theorem abs_sorted_of_WF (t : BTree) (h : WF t) :
     Sorted t.abs ∧ (∀ x ∈ t.abs, x.id ≠ 0) ∧ t.count = (t.abs.length : Int) := by
   unfold WF at h
+  replace h := h.2
   by_cases hr : t.root = 0
   · simp only [hr, if_true] at h
     have : t.abs = [] := by simp [BTree.abs, hr, absNode_zero]
